@@ -35,6 +35,7 @@ type SFPacket struct {
 	ICMPCode uint8  `json:"icmp_code"`
 	Payload  []byte `json:"payload"` // after the L4 header (for ICMP: after the first 4 octets, >= 1 octet)
 	IHL      uint8  `json:"ihl,omitempty"` // hostile knob: IPv4 header length in words (0 = 5); options are zero octets
+	MoreTags int    `json:"more_tags,omitempty"` // hostile knob: further 802.1Q tags stacked behind the first (Q-in-Q)
 }
 
 // Bytes renders the sampled header.
@@ -46,6 +47,10 @@ func (p *SFPacket) Bytes() []byte {
 		if p.Vlan >= 0 {
 			b = put16(b, 0x8100)
 			b = put16(b, uint16(p.Vlan))
+			for i := 0; i < p.MoreTags; i++ {
+				b = put16(b, 0x8100)
+				b = put16(b, uint16(p.Vlan+i+1)&0xfff)
+			}
 		}
 		if p.IPv6 {
 			b = put16(b, 0x86DD)
